@@ -198,6 +198,9 @@ class Model:
         n = int(np.prod(impl))
         if any(np.asarray(k).shape != (n, n) for k in ks):
             return "wrongsize"
+        tot = sum(np.asarray(k).conj().T @ np.asarray(k) for k in ks)
+        if np.max(np.abs(tot - np.eye(n))) > 1e-9:
+            return "incomplete"
         return [embed_multi(k, impl, rd) for k in ks]
 
     # ------------------------------------------------------------------ validity
@@ -263,7 +266,7 @@ class Model:
             if entry.startswith("env:") and not (1 <= len(targets) <= 2):
                 return False
             ks = self.ref_kraus(world, name, targets, params)
-            return ks is not None and ks != "wrongsize"
+            return ks is not None and not isinstance(ks, str)
         if kind == "measure":
             _, entry, targets, sep, destr = a
             if not self._alive(targets) or not self._entry_ok(entry, targets):
@@ -286,7 +289,7 @@ class Model:
                 if self.env_retired[e] or len(targets) > 2:
                     return False
             ks = self.ref_kraus(world, name, targets)
-            return ks is not None and ks != "wrongsize"
+            return ks is not None and not isinstance(ks, str)
         if kind in ("env_combine",):
             e = a[1]
             if obs is not None:
@@ -301,6 +304,10 @@ class Model:
                     and self._entry_ok("env:" + e, a[2]) and 1 <= len(a[2]) <= 2)
         if kind in ("expand", "contract"):
             entry, targets = a[1], a[2]
+            if kind == "expand" and obs is not None and entry.startswith("ce:"):
+                # CompositeEnvelope.expand(states) is undocumented; it only touches product spaces
+                if any(obs.location(t) != "ps" for t in targets):
+                    return False
             if kind == "contract" and obs is not None:
                 # contract() on a subsystem whose state lives elsewhere, and Envelope.contract() on
                 # anything but a combined matrix-level envelope: validity left open by the docs
